@@ -57,6 +57,8 @@ var YieldPackages = map[string]bool{
 	Module + "/internal/plugin":     true,
 	Module + "/internal/frame":      true,
 	Module + "/internal/process":    true,
+	Module + "/protocol/binary":     true,
+	Module + "/wire":                true,
 }
 
 var simulatedSync = map[string]bool{"Mutex": true, "WaitGroup": true, "Pool": true}
